@@ -378,6 +378,7 @@ pub fn run(args: &Args, rep: &mut Report) {
                     for s in 0..seeds {
                         let ds = if s == 0 { 0 } else { r.next_u64() | 1 };
                         let (_, real, _) = e.judge(&sc, p, ds, "pool-matrix");
+                        let dg = std::mem::take(&mut e.last_digests);
                         if s == 0 && (p == 1 || p == 16) {
                             // the other entry points (Outputs then Checks over a shared cache) under the same pools
                             let (_, m, _) = e.judge(&sc, p, 0, "manual-two-phase");
@@ -393,12 +394,11 @@ pub fn run(args: &Args, rep: &mut Report) {
                                 }
                             }
                         }
-                        let dg = std::mem::take(&mut e.last_digests);
                         match &first_dg {
                             None => first_dg = Some(dg),
                             Some(d0) => {
                                 if *d0 != dg && matches!(real, RealVerdict::Ok { .. }) {
-                                    e.rep.violation("C02", "schedule-dependent-node-input", format!("the data reaching the leaves differs between pool sizes / schedules (pool {p}, delay {ds}): {} leaf digests differ", d0.iter().filter(|(k, v)| dg.get(*k) != Some(*v)).count()), case_json(&sc, json!({"pool": p, "delay_seed": ds})));
+                                    e.rep.violation("C02", "schedule-dependent-node-input", format!("the data reaching the leaves differs between pool sizes / schedules (pool {p}, delay {ds}): {} of {} / {} leaf digests differ", d0.iter().filter(|(k, v)| dg.get(*k) != Some(*v)).count() + dg.keys().filter(|k| !d0.contains_key(*k)).count(), d0.len(), dg.len()), case_json(&sc, json!({"pool": p, "delay_seed": ds})));
                                 }
                             }
                         }
